@@ -88,6 +88,28 @@ theorem for_range_numerals_source_std (P : Prims) (cfg : Cfg) (fs : FS) (fuel : 
       .ok ((List.range (b - a + 1).toNat).map (fun k : Nat => intDec (a + k))).flatten :=
   for_range_numerals_source P stdOut cfg fs fuel line env stdOut_int ivar a b w1 w2 w3 hiv hnf ha hb hab hsmall hg hc
 
+/-- **C11 (range loop with `reversed`, `offset:`, `limit:`), from source bytes, all literals general.** For integers
+    `a`, `b` and optional integers `off`, `lim` (all in the `int64` range), the source
+
+    `{% for i in (a..b) reversed offset: off limit: lim %}{{ i }}{% endfor %}`   (each modifier optional)
+
+    renders the numerals of `selectItems rev off lim [a, …, b]`: reversed first, then the offset skipped, then
+    at most `limit` items (`select_spec`). The arguments are parsed by the scanner and grammar model
+    (`parse_rangeArgs_mods`); no parsing hypothesis is left. -/
+theorem for_range_mods_source (P : Prims) (O : OutPrims) (cfg : Cfg) (fs : FS) (fuel : Nat) (line : Nat) (env : Env)
+    (hO : ∀ n, O.chunks (.int .int n) = .ok [intDec n])
+    (ivar : Bytes) (a b : Int) (rev : Bool) (off lim : Option Int) (w1 w2 w3 : Ws)
+    (hiv : Lexeme .rIdent ivar) (hnf : ivar ≠ nmForloop)
+    (ha : IntKind.i64.inRange a = true) (hb : IntKind.i64.inRange b = true)
+    (hoff : ∀ o, off = some o → IntKind.i64.inRange o = true) (hlim : ∀ l, lim = some l → IntKind.i64.inRange l = true)
+    (hsmall : b - a ≤ 100000)
+    (hg : GoodDelims (Delims.ofList cfg.delims))
+    (hc : Clean (Delims.ofList cfg.delims) (forPrintSrc (rangeArgs ivar a b ++ modsText rev off lim) ivar w1 w2 w3)) :
+    run P O cfg fs fuel (spell (Delims.ofList cfg.delims) (forPrintSrc (rangeArgs ivar a b ++ modsText rev off lim) ivar w1 w2 w3))
+      line env = .ok ((selectItems rev off lim (rangeItems a b)).map decOf).flatten :=
+  for_range_source P O cfg fs fuel line env hO _ ivar a b rev off lim w1 w2 w3
+    (parse_rangeArgs_mods ivar a b rev off lim hiv ha hb hoff hlim) (parseExprSource_ident ivar hiv) hnf hsmall hg hc
+
 /-! ## Non-vacuity, on concrete bytes (default delimiters) -/
 
 theorem lexeme_i : Lexeme .rIdent [105] := Lexeme.word 105 [] [] (by decide) (by decide) (Or.inl rfl)
@@ -120,3 +142,14 @@ example (P : Prims) (fs : FS) (env : Env) :
       .ok [52, 51, 50] :=
   for_range_source P stdOut {} fs 1 1 env stdOut_int _ [105] 1 5 true (some 1) (some 3) Ws.std Ws.std Ws.std rfl rfl (by decide)
     (by decide) (by decide) (by decide)
+
+/-- `{% for i in (1..5) reversed offset: 1 limit: 3 %}{{ i }}{% endfor %}` again, through the general theorem -/
+example (P : Prims) (fs : FS) (env : Env) :
+    run P stdOut {} fs 1 (spell Delims.default (forPrintSrc (rangeArgs [105] 1 5 ++ modsText true (some 1) (some 3)) [105]
+      Ws.std Ws.std Ws.std)) 1 env = .ok [52, 51, 50] :=
+  for_range_mods_source P stdOut {} fs 1 1 env stdOut_int [105] 1 5 true (some 1) (some 3) Ws.std Ws.std Ws.std lexeme_i
+    (by decide) (by decide) (by decide) (by intro o h; cases h; decide) (by intro o h; cases h; decide) (by decide)
+    (by decide) (by decide)
+example : rangeArgs [105] 1 5 ++ modsText true (some 1) (some 3) =
+    [105, 32, 105, 110, 32, 40, 49, 46, 46, 53, 41, 32, 114, 101, 118, 101, 114, 115, 101, 100, 32,
+     111, 102, 102, 115, 101, 116, 58, 32, 49, 32, 108, 105, 109, 105, 116, 58, 32, 51] := by decide
